@@ -161,7 +161,9 @@ def run_shard(spec) -> Result:
         # MVL/MVLD/EXL and the register-indirect block forms with I in {0x100, 0x101, 0x1FF, 0x234, 0x2001}: both cores
         # must move exactly I elements (pointers advance by I, I ends at 0); internal-memory sides wrap identically
         ops = [0xCB, 0xCF, 0xC3, 0xD3, 0xDB, 0xE3, 0xEB, 0x56, 0x5E]
-        counts = [0x100, 0x101, 0x1FF, 0x234] + ([0x2001] if spec["part"] == 0 else [])
+        # (the counter is a 16-bit UNSIGNED quantity: 0x8001 and 0xFFFF are ordinary counts)
+        counts = [0x100, 0x101, 0x1FF, 0x234] + ([0x2001] if spec["part"] == 0 else []) + \
+                 ([0x8001] if spec["part"] == 1 else []) + ([0xFFFF] if spec["part"] == 2 else [])
         batch = []
         for op in ops:
             for cnt in counts:
